@@ -51,6 +51,11 @@ CLAIMED = {
     text='Every Cayley table the library constructs (S_n, A_n, D_3..D_12, C_2..C_12, (Z/n)^* n<=24, V4, Q8) is exported and the group axioms are evaluated by TLC over ALL element triples; the group is identified by isomorphism invariants (order, element-order profile, commutativity) computed by TLC from the table and from the reference construction (permutations / presentations) in the spec; the left-regular form is checked to be a faithful homomorphism. Irreducible blocks: sum d^2 = |G|, #irreps = #classes (classes computed by TLC), and for groups whose characters are all rational (decided by TLC from the table) the integer characters must be class functions satisfying row orthogonality in Z. p(N) for N<=60 against the pentagonal recurrence, the Young-diagram list against the enumerated partition set, and the Young lattice is model-checked as a state machine (every standard filling with N<=8 / 10 is a state; branching rule and standardness invariants): get_all_young_tableaux must return exactly the states of each shape, distinct, hook-length many.',
     note='NOT covered: entry-wise unitarity/homomorphism of the floating irreducible blocks, irrational character values. S_5/A_5 (order 120/60) only in thorough.',
     technique='TLA+ specs of finite groups, partitions and the Young lattice; TLC exhaustive evaluation over all triples / all lattice states; TLC trace validation of recorded library outputs'),
+ 'C15': dict(
+    cat='model_checking', ref='6/C15',
+    text='ZYZ Euler rotations are evaluated exactly on a Pythagorean half-angle grid (12 x 4 x 12 = 576 triples; beta = 0 and beta = pi exactly with alpha+-gamma in every quadrant): TLC proves on every grid element that R is orthogonal with det +1, U is special unitary, and the polynomial SU(2)->SO(3) map sends U and -U to R. Each element is replayed: angle_to_so3/su2 against the exact matrices, so3_to_angle / su2_to_angle / so3_to_su2 must rebuild the rotation (SU(2) up to the documented sign), su2_to_so3, batches mixing generic and degenerate rotations must convert element-wise without raising, and get_su2_irrep (matrix and angle forms, j2<=3) is compared entrywise with the symmetric power Sym^n(U) in the Dicke basis (numerators computed exactly by TLC, radical normalisation sqrt(C(n,k)C(n,k\'))). Angular-momentum operators for j2<=10: TLC proves the su(2) commutator and Casimir identities on the integer squares; the library matrices are compared with them.',
+    note='NOT covered: Clebsch-Gordan coefficients (sympy values), spin-j exactly for j2>3 (32-bit overflow), D(U1U2)=D(U1)D(U2) on the code side only numerically at off-grid products. Tolerances 1e-9 forward, 1e-7 after angle extraction.',
+    technique='TLA+ exact rational model of SO(3)/SU(2) Euler rotations and symmetric-power spin matrices; TLC exhaustive grid enumeration; replay into the code'),
  'C16': dict(
     cat='model_checking', ref='6/C16',
     text='The generalised Gell-Mann basis is specified in the documented order as G_k = c_k M_k with rational c_k^2 and Gaussian-integer M_k; TLC proves for every d=2..6 (8 thorough): d^2 matrices, Hermitian, pairwise trace-orthogonal, c_k^2 Tr(M_k^2)=2, and completeness (synthesis after analysis reproduces every matrix unit, denominators cleared). The spec basis is the reference for all_gellmann_matrix / gellmann_matrix (order and entries, tensor_n=2 for d<=3), matrix_to_gellmann_basis on every matrix unit and gellmann_basis_to_matrix on every unit vector for batch shapes (), (k,), (k,l) in numpy and torch (float64; complex64/float32 at 2e-5), round trips on Gaussian-integer inputs, and the density-matrix helpers (Bloch vector, norm, squared distance) on rational density matrices.',
